@@ -63,6 +63,17 @@ class RunnerTimeout(Exception):
     pass
 
 
+def die_with_parent():
+    """Linux: SIGKILL this process when its parent dies (a killed check must not leave pool
+    workers or runners behind)."""
+    try:
+        import ctypes
+        import signal
+        ctypes.CDLL("libc.so.6", use_errno=True).prctl(1, signal.SIGKILL)   # PR_SET_PDEATHSIG
+    except Exception:
+        pass
+
+
 class Runner:
     """One `rlv sql` process. Disposable."""
 
@@ -74,7 +85,7 @@ class Runner:
         if env:
             e.update(env)
         self.p = subprocess.Popen(cmd, stdin=subprocess.PIPE, stdout=subprocess.PIPE,
-                                  stderr=subprocess.PIPE, env=e, bufsize=0)
+                                  stderr=subprocess.PIPE, env=e, bufsize=0, preexec_fn=die_with_parent)
         self.buf = b""
 
     def cmd(self, obj, timeout=60.0):
@@ -353,7 +364,7 @@ def parallel_map(fn, items, workers=None):
     """Run fn over items in a process pool, yielding results as they complete (unordered)."""
     import concurrent.futures as cf
     workers = workers or NCPU
-    with cf.ProcessPoolExecutor(max_workers=workers) as ex:
+    with cf.ProcessPoolExecutor(max_workers=workers, initializer=die_with_parent) as ex:
         futs = [ex.submit(fn, it) for it in items]
         for f in cf.as_completed(futs):
             yield f.result()
